@@ -397,6 +397,19 @@ func fragParseBytes(g *Gen, n int, o *Out) {
 		emitParse(o, 0, s)
 		shapeOracle(o, s)
 	}
+	// rejected and accepted inputs whose length in bytes and length in characters differ, at every length up to 70
+	// characters (a message that quotes or abbreviates the input must not mix the two measures)
+	for _, ch := range []string{"é", "日", "😀", "e\u0301"} {
+		for cnt := 1; cnt <= 70; cnt++ {
+			run := strings.Repeat(ch, cnt)
+			for _, in := range []string{"name == \"" + run, "foo == `ok` " + run, "a == 1 and m[\"" + run + "\" == 2", "a == \"" + run + "\""} {
+				shapeOracle(o, in)
+				if cnt%8 == 0 {
+					emitParse(o, 0, in)
+				}
+			}
+		}
+	}
 	for i := 0; i < n; i++ {
 		var base string
 		if g.r.Intn(3) == 0 {
